@@ -29,6 +29,7 @@ type aqP struct {
 	User      string // user record shape of alice (aqUsers)
 	Prefix    string // "" std | default | odd
 	Decl      string
+	Lex       string // purely lexical serialisation variant (lexVals)
 	ID        string // "" ok | special
 	IDRaw     *string
 	SPCert    string // "" one | none
@@ -242,6 +243,7 @@ func aqBuild(p aqP) (*world.World, *http.Request, *aqTruth) {
 	q := msg.AttrQuery(o)
 	env := msg.SOAP(q)
 	st := xt.Style{Prefixes: p.Prefix, Decl: p.Decl == "yes"}
+	lexStyle(&st, p.Lex)
 	var doc []byte
 	if p.Sign != "" {
 		signer := world.SPA
@@ -322,7 +324,7 @@ func aqBuild(p aqP) (*world.World, *http.Request, *aqTruth) {
 				panic("aqBuild: Forge " + p.Forge)
 			}
 			t.SigIntact, t.Conformant = false, false
-			doc = root.Bytes(xt.Style{Decl: st.Decl})
+			doc = root.Bytes(st.Lex())
 		}
 	} else {
 		if p.Forge != "" || p.Signer != "" || p.KeyInfo != "" || p.SignImpl != "" {
@@ -378,6 +380,8 @@ func (p *aqP) set(name, val string) {
 		p.Prefix = val
 	case "Decl":
 		p.Decl = val
+	case "Lex":
+		p.Lex = val
 	case "ID":
 		p.ID = val
 	case "SPCert":
